@@ -1,1 +1,8 @@
-//! Hooks for property C23 (empty unless needed).
+//! Hooks for property C23: wrapper around the crate-private `prune_non_relay_paths`.
+//!
+//! The wrapper itself lives next to the function (`path_state::verif_c23`) because the path
+//! map types are private to `remote_state`; this module only re-exports it.
+pub use crate::socket::{
+    remote_map::verif_c23::{Status, prune},
+    transports::Addr,
+};
